@@ -37,13 +37,17 @@ type Result struct {
 
 // Opts configures a supervised run.
 type Opts struct {
-	Classes  string   // subset of "fsp"
-	Prefixes []string // path prefixes for file operations
-	KillAt   int      // >0: kill at the entry of this counted call
-	HoldAt   int      // >0: hold there and run HoldCmd
-	HoldCmd  string
-	FailAt   int // >0: make this counted call fail with FailErrno instead of executing it
+	Classes   string   // subset of "fsp"
+	Prefixes  []string // path prefixes for file operations
+	KillAt    int      // >0: kill at the entry of this counted call
+	HoldAt    int      // >0: hold there and run HoldCmd
+	HoldCmd   string
+	FailAt    int // >0: make this counted call fail with FailErrno instead of executing it
 	FailErrno int
+	// FailCall (with FailNth, default 1): make the N-th counted call of that NAME
+	// fail instead — independent of the order in which threads reach their calls
+	FailCall string
+	FailNth  int
 	Env      []string
 	Dir      string
 	Timeout  time.Duration
@@ -75,7 +79,13 @@ func Run(scratch string, o Opts, argv ...string) (*Result, error) {
 	if o.HoldAt > 0 {
 		args = append(args, "-h", strconv.Itoa(o.HoldAt), "-r", o.HoldCmd)
 	}
-	if o.FailAt > 0 {
+	if o.FailCall != "" {
+		n := o.FailNth
+		if n <= 0 {
+			n = 1
+		}
+		args = append(args, "-f", fmt.Sprintf("%s#%d:%d", o.FailCall, n, o.FailErrno))
+	} else if o.FailAt > 0 {
 		args = append(args, "-f", fmt.Sprintf("%d:%d", o.FailAt, o.FailErrno))
 	}
 	args = append(args, "--")
